@@ -24,7 +24,7 @@ META = dict(
                "saturation probe checks it on the implementation. That every outcome ends the callback task in the same way is "
                "established by trace acceptance (sampled), the per-message pipeline itself is Pipeline.v (C02/C07/C10). Trusted: "
                "Coq kernel + vm_compute, shims and raw-log grouping (harness/shims.py), virtual-time loop.",
-    rule="case = receiver scenario with a fault history (raise / BaseException / timeout label / no-result / malformed / unknown / "
+    rule="case = receiver scenario with a fault history (raise / BaseException / timeout label with instant or slow cancellation clean-up / no-result / malformed / unknown / "
          "failing backend / raising pre- or post-hook) followed by A+1 long probe tasks; non-trivial iff finite A, >= A messages "
          "ending abnormally and a probe present; distinct by canonical scenario",
     trusted_base=["model: coq/theories/RecvLTS.v", "logging shims + raw log -> LTS event grouping: harness/shims.py; harness/vloop.py",
@@ -32,7 +32,7 @@ META = dict(
     assumptions=["fairness of the asyncio event loop (an enabled task step is eventually run)",
                  "the broker's listen() generator takes a message only at its yield and raises nothing but StopAsyncIteration"],
 )
-PROF = dict(probe=True, stop_p=.12, n_p=.1, ends_p=.08, wtt_p=.2)
+PROF = dict(probe=True, stop_p=.12, n_p=.1, ends_p=.08, wtt_p=.2, slowcancel=.2)
 DELTA = R.US            # a ready message must start within 1 s (virtual) of a slot being free
 
 
@@ -61,11 +61,13 @@ def oracle(sc, obs):
         elif tag == "cb.end":
             proc.discard(a)
         elif tag == "body.in":
+            if body and A == 1:
+                serial_ok = False        # limit 1: the previous task body has not really ended yet
             body.add(a)
         elif tag == "body.out":
-            body.discard(a)
-        elif tag in ("hook.pre", "hook.post", "save", "ack"):
-            if a not in proc:
+            body.discard(a)              # logged in the outermost finally of the task function: the body REALLY ended
+        if tag in ("hook.pre", "hook.post", "save", "ack", "body.in", "body.cleanup", "body.out"):
+            if a not in proc and not any(o["sig"].get("kind") == "bracket" for o in out):
                 out.append(dict(what="observable processing event outside the message's callback bracket",
                                 observed=[t, tag, a], expected="between cb.start and cb.end", sig=dict(kind="bracket")))
         peak = max(peak, len(proc))
@@ -141,7 +143,7 @@ def explore(ctx, rep, scs, label):
             elif m.get("pre_fail") or m.get("post_fail") or m.get("save_fail"):
                 rep.count("outcome:" + ("pre_fail" if m.get("pre_fail") else "post_fail" if m.get("post_fail") else "save_fail"))
             elif m.get("tlabel_us") is not None and m["tlabel_us"] < m["dur"]:
-                rep.count("outcome:timeout")
+                rep.count("outcome:timeout" + ("+slow-cancellation" if m.get("cleanup_us") else ""))
             else:
                 rep.count("outcome:%s/%s" % (m["out"], m["style"]))
     bad, fails = R.acceptance(ctx, rep, label, scs, obss, "C03_check")
